@@ -67,9 +67,15 @@ def shift_spec(spec, dz):
 def polyline_crossings(spec1, spec2, n=400):
     """approximate parameters (t1, t2) of all crossings of the two curves, from n-segment polylines.
     Returns list of (t1, t2, sin_angle)."""
-    ts = np.linspace(0.0, 1.0, n + 1)
-    a = spec_eval(spec1, ts)
-    b = spec_eval(spec2, ts)
+    # different (odd) piece counts for the two curves: a crossing at a "simple" parameter (0.5, 0.25, ...) of both curves then
+    # never falls on a vertex of both polylines, where the half-open piece tests can lose it to rounding
+    n1 = n + 1 - (n % 2) + 0      # odd
+    n2 = n1 + 4
+    n1 = n1 if n1 % 3 else n1 + 2
+    ts1 = np.linspace(0.0, 1.0, n1 + 1)
+    ts2 = np.linspace(0.0, 1.0, n2 + 1)
+    a = spec_eval(spec1, ts1)
+    b = spec_eval(spec2, ts2)
     a0, a1 = a[:-1, None], a[1:, None]
     b0, b1 = b[None, :-1], b[None, 1:]
     da, db = a1 - a0, b1 - b0
@@ -85,7 +91,7 @@ def polyline_crossings(spec1, spec2, n=400):
     out = []
     for i, j in zip(*np.nonzero(hit)):
         sa = abs(den[i, j]) / (abs(da[i, 0]) * abs(db[0, j]) + 1e-300)
-        out.append(((i + s[i, j]) / n, (j + t[i, j]) / n, float(sa)))
+        out.append(((i + s[i, j]) / n1, (j + t[i, j]) / n2, float(sa)))
     return out
 
 
